@@ -149,15 +149,6 @@ Definition prop := (str * (bool * str))%type.     (* name, (required, type text)
 (* the sort key (not required, name) as one string: False < True, then the name *)
 Definition prop_key (p : prop) : str := (if fst (snd p) then 0 else 1) :: fst p.
 
-Section SortBy.
-  Context {A : Type} (key : A -> str).
-  Fixpoint insert_by (x : A) (l : list A) : list A :=
-    match l with
-    | [] => [x]
-    | y :: r => if str_leb (key x) (key y) then x :: l else y :: insert_by x r
-    end.
-  Definition sort_by (l : list A) : list A := fold_right insert_by [] l.
-End SortBy.
 Definition sort_props (l : list prop) : list prop := sort_by prop_key l.
 
 Fixpoint fresh_suffix (fuel : nat) (base : str) (suffix : N) (seen : list str) : str :=
